@@ -48,7 +48,9 @@ SELF_ATTRS = {'max_retries': ('retries', 'nat'), 'retry_delay_in_ms': ('delay', 
 PARSER_METHODS = {'set_filters': 'cidlist', 'set_filter': 'cid', 'empty_queue': None, 'restart': None, 'process': 'bytes'}
 BACKEND_VOID = {'_flush_input': 'Py.flushInput', '_recover': 'Py.recover'}
 NONE_FIRST = {'response': 'optframe', 'packet': 'optframe', 'frame': 'optframe'}
-FIELD_TABLES = {}     # frame class name -> Lean table, filled from the class constants
+FIELD_TABLES = {}
+DIALECT = {'ns': 'Gen.Src.Server', 'self': 'Py.Server', 'env': 'Ubx.Env', 'timeNow': 'Py.timeNow', 'receive': 'Py.receive', 'transmit': 'Py.transmit',
+           'res': 'Py.Res', 'finish': 'Py.finish', 'methods': None, 'void': None}     # frame class name -> Lean table, filled from the class constants
 
 
 class Env:
@@ -67,9 +69,11 @@ class Env:
 
 
 class ServerTranslator:
-    def __init__(self, node, consts):
+    def __init__(self, node, consts, dialect=None):
         self.node, self.consts = node, consts
         self.fresh = 0
+        self.D = dict(DIALECT, methods=METHODS, void=BACKEND_VOID)
+        self.D.update(dialect or {})
 
     # ---- helpers ----------------------------------------------------------------------------------
     def is_logging(self, s):
@@ -168,7 +172,7 @@ class ServerTranslator:
         if isinstance(n, ast.Call):
             f = ast.unparse(n.func)
             if f == 'time.time' and not n.args:
-                return 'Py.timeNow st.self', 'nat'
+                return f'{self.D["timeNow"]} st.self', 'nat'
             if f == 'UbxCID' and len(n.args) == 2:
                 (a, ta), (b, tb) = self.expr(n.args[0], env), self.expr(n.args[1], env)
                 if ta == tb == 'optint':
@@ -271,7 +275,7 @@ class ServerTranslator:
     def call_method(self, call, env, ind, k):
         """self.<translated method>(args): k(value expr, type) gives the continuation; returns Lean"""
         m = call.func.attr
-        params, rt = METHODS[m]
+        params, rt = self.D['methods'][m]
         args = []
         for i, (pn, pt) in enumerate(params):
             if i < len(call.args):
@@ -284,7 +288,7 @@ class ServerTranslator:
         pad = ' ' * ind
         self.fresh += 1
         v, s = f'v{self.fresh}', f's{self.fresh}'
-        return (f'match Gen.Src.Server.{lname(m)} env st.self {" ".join(args)} with\n'
+        return (f'match {self.D["ns"]}.{lname(m)} env st.self {" ".join(args)} with\n'
                 f'{pad}| (.error a, {s}) => .abort a {{ st with self := {s} }}\n'
                 f'{pad}| (.ok {v}, {s}) =>\n{pad}  let st := {{ st with self := {s} }}\n{pad}  {k(v, rt, ind + 2)}')
 
@@ -303,6 +307,8 @@ class ServerTranslator:
         if isinstance(s, ast.Return):
             if s.value is None:
                 return f'.ret {self.none_of(self.rtype, s)} st'
+            if self.rtype == 'bool' and isinstance(s.value, (ast.Compare, ast.BoolOp)):
+                return f'.ret {self.cond(s.value, env)} st'
             a, t = self.expr(s.value, env)
             return f'.ret {self.coerce(a, t, self.rtype, s)} st'
         if isinstance(s, ast.Break):
@@ -318,9 +324,9 @@ class ServerTranslator:
         if isinstance(s, ast.Expr) and isinstance(s.value, ast.Call):
             c = s.value
             f = ast.unparse(c.func)
-            if is_self_call(c, BACKEND_VOID) and not c.args:
-                return f'let st := {{ st with self := {BACKEND_VOID[c.func.attr]} st.self }}\n{pad}{nxt()}'
-            if is_self_call(c, METHODS):
+            if is_self_call(c, self.D['void']) and not c.args:
+                return f'let st := {{ st with self := {self.D["void"][c.func.attr]} st.self }}\n{pad}{nxt()}'
+            if is_self_call(c, self.D['methods']):
                 return self.call_method(c, env, ind, lambda v, t, i: self.block(rest, env, i))
             if is_self_call(c, {'_register_response'}) and len(c.args) == 1:
                 a, t = self.expr(c.args[0], env)
@@ -350,15 +356,15 @@ class ServerTranslator:
                 return (f'let st := {{ st with pkt := (Py.packet st.self).1, self := (Py.packet st.self).2 }}\n{pad}{self.block(rest, e2, ind)}')
             if isinstance(t0, ast.Name):
                 name = t0.id
-                if is_self_call(v, METHODS):
+                if is_self_call(v, self.D['methods']):
                     return self.call_method(v, env, ind, lambda x, t, i: self.assign_field(name, x, t, env, s) + '\n' + ' ' * i + self.block(rest, env, i))
                 if is_self_call(v, {'_transmit'}) and len(v.args) == 1:
                     a, t = self.expr(v.args[0], env)
-                    up = self.assign_field(name, '(Py.transmit env st.self ' + self.coerce(a, t, 'bytes', s) + ').1', 'bool', env, s)
-                    return up.replace(' }', f', self := (Py.transmit env st.self {a}).2 }}', 1) + f'\n{pad}{nxt()}'
+                    up = self.assign_field(name, f'({self.D["transmit"]} env st.self ' + self.coerce(a, t, 'bytes', s) + ').1', 'bool', env, s)
+                    return up.replace(' }', f', self := ({self.D["transmit"]} env st.self {a}).2 }}', 1) + f'\n{pad}{nxt()}'
                 if is_self_call(v, {'_receive'}) and not v.args:
-                    up = self.assign_field(name, '(Py.receive env st.self).1', 'bytes', env, s)
-                    return up.replace(' }', ', self := (Py.receive env st.self).2 }', 1) + f'\n{pad}{nxt()}'
+                    up = self.assign_field(name, f'({self.D["receive"]} env st.self).1', 'bytes', env, s)
+                    return up.replace(' }', f', self := ({self.D["receive"]} env st.self).2 }}', 1) + f'\n{pad}{nxt()}'
                 if ast.unparse(v) == 'FrameFactory.getInstance()':
                     return self.block(rest, env.with_bound(name, 'st.self.reg', 'factory'), ind)
                 a, t = self.expr(v, env)
@@ -412,12 +418,12 @@ class ServerTranslator:
         rl = LEANTYPE[self.rtype]
         name = f'{self.cur}.body{k}'
         idx = f' ({index} : Nat)' if index else ''
-        self.aux.append(f'def {name} (env : Ubx.Env){params}{idx} (st : {st}) : Py.Ctl {st} ({rl}) :=\n    {text}\n')
+        self.aux.append(f'def {name} (env : {self.D["env"]}){params}{idx} (st : {st}) : Py.Ctl {st} ({rl}) :=\n    {text}\n')
         cname = None
         if cond is not None:
             cname = f'{self.cur}.test{k}'
-            self.aux.append(f'def {cname} (env : Ubx.Env){params} (st : {st}) : Bool :=\n    {cond}\n')
-        return f'Gen.Src.Server.{name} env{call}', (f'Gen.Src.Server.{cname} env{call}' if cname else None)
+            self.aux.append(f'def {cname} (env : {self.D["env"]}){params} (st : {st}) : Bool :=\n    {cond}\n')
+        return f'{self.D["ns"]}.{name} env{call}', (f'{self.D["ns"]}.{cname} env{call}' if cname else None)
 
     def none_of(self, rt, node):
         if rt.startswith('opt'):
@@ -426,6 +432,8 @@ class ServerTranslator:
             return 'false'
         if rt == 'unit':
             return '()'
+        if rt == 'bytes':
+            return '[]'             # None and an empty read are both falsy
         fail(node, 'return without a value')
 
     def type_of(self, n, env):
@@ -439,7 +447,7 @@ class ServerTranslator:
         # time.time() < X
         if isinstance(test, ast.Compare) and ast.unparse(test.left) == 'time.time()' and isinstance(test.ops[0], ast.Lt):
             x, t = self.expr(test.comparators[0], env)
-            return f'({x} - Py.timeNow st.self)'
+            return f'({x} - {self.D["timeNow"]} st.self)'
         # the state loop of poll(): two wait states, each with a deadline of its own
         names = {n.id for n in ast.walk(test) if isinstance(n, ast.Name)}
         if names == {'state'} and 'time_end' in env.fields:
@@ -533,11 +541,13 @@ class ServerTranslator:
         fn = next((n for n in self.node.body if isinstance(n, ast.FunctionDef) and n.name == name), None)
         if fn is None:
             fail(self.node, f'method {name} not found')
-        params, rt = METHODS[name]
+        params, rt = self.D['methods'][name]
         got = [a.arg for a in fn.args.args if a.arg != 'self']
         if len(got) != len(params) or fn.args.vararg or fn.args.kwarg or fn.args.kwonlyargs:
             fail(fn, 'signature')
         for d, (pn, pt) in zip(reversed(fn.args.defaults), reversed(list(zip(got, [p[1] for p in params])))):
+            if pt == 'nat' and isinstance(d, ast.Constant) and isinstance(d.value, (int, float)) and not isinstance(d.value, bool):
+                continue            # a number of seconds: the translated method takes the interval as an argument (in clock ticks)
             if not (pt.startswith('opt') and ast.unparse(d) == 'None'):
                 fail(fn, 'default argument')
         self.rtype = rt
@@ -551,12 +561,12 @@ class ServerTranslator:
         env = Env(fields, bound, vars=vars)
         body = self.block(fn.body, env, 4)
         st = f'{lname(name)}.St'
-        decl = f'structure {st} where\n  self : Py.Server\n' + ''.join(
+        decl = f'structure {st} where\n  self : {self.D["self"]}\n' + ''.join(
             f'  {lname(f)} : {DEFAULTS[t][0]} := {DEFAULTS[t][1]}\n' for f, t in fields.items())
         sig = ' '.join(f'({g} : {LEANTYPE[pt]})' for g, (_, pt) in zip(got, params))
         rl = LEANTYPE[rt]
-        return (f'{decl}\n' + '\n'.join(self.aux) + f'\ndef {lname(name)} (env : Ubx.Env) (self : Py.Server) {sig} : Py.Res ({rl}) :=\n'
-                f'  Py.finish (fun st : {st} => st.self) {self.none_of(rt, fn) if rt != "nat" else "0"} (\n'
+        return (f'{decl}\n' + '\n'.join(self.aux) + f'\ndef {lname(name)} (env : {self.D["env"]}) (self : {self.D["self"]}) {sig} : {self.D["res"]} ({rl}) :=\n'
+                f'  {self.D["finish"]} (fun st : {st} => st.self) {self.none_of(rt, fn) if rt != "nat" else "0"} (\n'
                 f'    let st : {st} := {{ self := self }}\n    {body})\n')
 
 
